@@ -48,6 +48,9 @@ func NewRun(bin string, sc *Scenario) *Run {
 	if cfg.GoMaxProcs != "" {
 		w.GoMax = cfg.GoMaxProcs
 	}
+	if v := os.Getenv("SIM_ERGO_GOMAXPROCS"); v != "" {
+		w.GoMax = v
+	}
 	if cfg.ShortWriteDen > 0 || cfg.ShortReadDen > 0 || cfg.StdinChunk {
 		w.Amb = Ambient{ShortWriteDen: cfg.ShortWriteDen, ShortReadDen: cfg.ShortReadDen, StdinChunk: cfg.StdinChunk, rng: NewSplitMix(cfg.AmbSeed)}
 	}
